@@ -49,6 +49,7 @@ PROPS = {
     "C07": sim("C07", 1000, 30000),
     "C16": sim("C16", 500, 15000),
     "C17": sim("C17", 800, 20000),
+    "C18": sim("C18", 500, 15000),
     "C09": sim("C09", 600, 15000),
     "C10": sim("C10", 500, 15000),
     "C14": sim("C14", 500, 12000),
@@ -97,6 +98,7 @@ MANIFEST_TEXT = {
     "C04": simtext("Schedules with kills immediately before/after generated storage operations, all-node crashes and majority-only restarts; at every first application and acknowledgement each voter's on-disk log (crash image for dead nodes) is read back through the real constructors and a strict majority must hold the entry; recovered logs must equal what was stored."),
     "C05": simtext("Schedules with unbounded message delay built around a deposed-but-unaware leader (hold-partitions, old replies released first, leader left with non-voters, reads at freshly elected leaders after whole-cluster restarts, slow state machines) with concurrent writers and linearizable readers; a successful read must reflect every write acknowledged before its invocation (recorder order) and reads must not go backwards."),
     "C16": simtext("Steady state first (leader L, everybody in its term, drained network = T0), then only nodes outside a drawn majority of L - a strict minority of voters, the non-voter, a voter removed through RemoveServer that keeps running - misbehave: symmetric and one-directional isolation (lost or held messages) for 0-20 election timeouts, rejoin at any instant, crash/stop/restart, late and duplicated messages, across randomised election timers; from T0 to the end L must report leader state in the same term and every majority node that term. Histories in which a minority node already carried a higher term before T0 are outside the property's precondition and are not generated."),
+    "C18": simtext("Raw public-API call sequences (lifecycle calls on the same instance in any order, Bootstrap variants, NewRaft with invalid options/addresses, submissions of every operation type incl. an invalid one with nil/empty/1 MiB payloads and zero/negative/large timeouts, membership requests with existing/unknown/self/empty ids, Status/Configuration and rendering of every reachable state) interleaved with cluster activity so that calls hit every node state; panics are recovered per call, process death (goroutine panic, logger.Fatal) is seen by the driver through the shard's exit and the action journal, calls and futures are timed in virtual time against their bounds, Await must be idempotent, committed membership changes must resolve their futures, and a Stop() that does not return is reported as a hang."),
     "C17": simtext("Bounded-delay network (each message delivered within a drawn D or lost; LD + D < ET), perfect virtual clocks; lease-based reads at any node at any instant under partitions and leader changes; staleness oracle of C05 plus the necessary condition that a voting member answered the serving node within the preceding lease duration."),
     "C09": simtext("Membership schedules from 1-4 voters: add (non-voter/voter), promote, remove (including the leader) submitted to any node, back-to-back and around faults, new nodes started empty, partitions, crashes, restarts; C01/C02/C07 oracles stay on (configuration entries compared by decoded content) and three membership oracles are added: every leader was elected by itself plus granted votes of voters forming a strict majority of a configuration it reported, every first application/acknowledgement is on disk at a strict voter majority of a configuration in use, a successful membership future reports a committed configuration that contains the change."),
     "C10": simtext("Snapshot schedules (armed by the schedule or by a log-size threshold on any node, slow Apply/Snapshot/Restore calls, lagging followers, crashes after a snapshot became visible, payloads of 0 B to more than three chunks); every snapshot file is intercepted on Close, decoded and compared with the authoritative applied order up to its label (nothing later, nothing missing), label term and configuration are checked, and every state machine instance is checked for duplicate or skipped applications after restores. The known finding F12 (mixed chunks) is matched by its mechanism and the search continues behind it."),
